@@ -43,7 +43,10 @@ MANIFEST = {
              "skipped. The statement for every history QoS is refuted by a witness (known finding C03-gap-skip-ack). "
              "COMPLETION at full strength is refuted by witnesses (known finding C03-stale-waiter: after "
              "delete_datareader on the peer or deletion of its participant the reader proxy is removed but the wait "
-             "list is only re-evaluated when an ACKNACK is accepted, so a caller parked earlier is never answered). The model is tied to the code by differential "
+             "list is only re-evaluated when an ACKNACK is accepted, so a caller parked earlier is never answered). "
+             "Proved part of completion (stage 1: KEEP_ALL, unfragmented, no removal, no deletion, at most 256 samples, "
+             "at least one relevant sample): after healing rounds that drain the network plus one more, the "
+             "acknowledgement test holds and no caller is parked (k + 2 heartbeat periods). The model is tied to the code by differential "
              "correspondence on a deterministic whole-stack simulation; the oracle (a success is followed by a take "
              "that contains every retained relevant sample; after healing no caller is parked) judges the real "
              "observations."),
